@@ -16,7 +16,7 @@
 (* TLC must then report Commute violated).                                  *)
 (***************************************************************************)
 EXTENDS Bip32, TLC, FiniteSets
-CONSTANTS CCs, Seeds, Dev
+CONSTANTS CCs, NSeeds, Dev
 VARIABLE c
 
 Idx   == {<<0, 0, 0, 0>>, <<0, 0, 0, 1>>, <<127, 255, 255, 255>>, <<128, 0, 0, 0>>, <<128, 0, 0, 1>>, <<255, 255, 255, 255>>}
@@ -33,7 +33,7 @@ PubCkd(K, c0, i) == IF Dev = "pub-no-il-check" THEN CKDpubNoCheck(K, c0, i) ELSE
 (* ---- cases ---- *)
 CkdCases(k)  == [k : {"ckd"}, d : {k}, c : CCs, i : Idx]
 XkCases(k)   == [k : {"xk"}, d : {k}, c : {1}, i : Idx, depth : {0, 1, 254, 255}, net : Nets]
-MasterCases  == [k : {"master"}, s : Seeds]
+MasterCases  == [k : {"master"}, s : 0..(NSeeds - 1)]
 Bases        == {XKey(TRUE, net, dp[1], dp[2], dp[3], CC(2), d) :
                     net \in Nets, d \in {1, 2, CN - 1}, dp \in {<<0, Zero4, Zero4>>, <<1, <<1, 2, 3, 4>>, <<128, 0, 0, 0>> >>, <<3, Zero4, Zero4>>}}
 Muts == {"none", "ver-unknown", "ver-zero", "ver-other-type", "ver-other-net", "prefix-1", "prefix-4", "prefix-255", "prefix-swap",
